@@ -147,6 +147,19 @@ func ruleR04k(c *Ctx) {
 			escScope.List = append(escScope.List, hd.Body)
 		}
 	}
+	// (an escapeHtml put on the list inside the loop over the print's directives belongs to one directive:
+	// that is R04r's concern, not the implicit one)
+	var dirLoops []*ast.RangeStmt
+	ast.Inspect(escScope, func(x ast.Node) bool {
+		if rs, ok := x.(*ast.RangeStmt); ok && rs.Value != nil {
+			if id, ok := rs.Value.(*ast.Ident); ok && info.Defs[id] != nil {
+				if _, tn, ok := relPkgOfType(info.Defs[id].Type()); ok && tn == "PrintDirectiveNode" {
+					dirLoops = append(dirLoops, rs)
+				}
+			}
+		}
+		return true
+	})
 	ast.Inspect(escScope, func(x ast.Node) bool {
 		call, ok := x.(*ast.CallExpr)
 		if !ok {
@@ -155,6 +168,11 @@ func ruleR04k(c *Ctx) {
 		id, ok := call.Fun.(*ast.Ident)
 		if !ok || id.Name != "append" || len(call.Args) < 2 {
 			return true
+		}
+		for _, rs := range dirLoops {
+			if rs.Body.Pos() <= call.Pos() && call.End() <= rs.Body.End() {
+				return true
+			}
 		}
 		hasLit := func(e ast.Expr) bool {
 			found := false
